@@ -329,6 +329,15 @@ pub fn check_core(c: &CoreCase) -> CheckResult {
     }
 }
 
+fn count_numeric_leaves(v: &Value, key: &str) -> usize {
+    match v {
+        Value::Number(_) if key != "index" => 1,
+        Value::Array(a) => a.iter().map(|x| count_numeric_leaves(x, key)).sum(),
+        Value::Object(m) => m.iter().map(|(k, x)| count_numeric_leaves(x, k)).sum(),
+        _ => 0,
+    }
+}
+
 pub fn def(ctx: &Ctx) -> PropDef {
     let t = ctx.tier;
     let mut subs: Vec<Box<dyn SubCheck>> = Vec::new();
@@ -367,6 +376,57 @@ pub fn def(ctx: &Ctx) -> PropDef {
             check_pair,
         ));
     }
+    // every numeric state field of the serde cores, one at a time (a hand-written == that skips
+    // one of 259 fields is hit by a random field choice only once in 259 trials)
+    subs.push(crate::engine::ESub::boxed(
+        "cores-crafted-all-fields",
+        2000,
+        || {
+            let mut v = Vec::new();
+            for which in [1u8, 2] {
+                let seed = gens::Seed { class: "fixed".into(), bytes: (0..32u8).map(|i| i.wrapping_mul(37).wrapping_add(11)).collect() };
+                let n = if which == 1 {
+                    count_numeric_leaves(&serde_json::to_value(<rand_isaac::isaac::IsaacCore as SeedableRng>::from_seed([7; 32])).unwrap(), "")
+                } else {
+                    count_numeric_leaves(&serde_json::to_value(<rand_isaac::isaac64::Isaac64Core as SeedableRng>::from_seed([7; 32])).unwrap(), "")
+                };
+                for field in 0..n {
+                    for (blocks_before, delta) in [(0usize, 1u64), (2, 1 << 17)] {
+                        v.push(CoreCase { which, seed: seed.clone(), blocks_before, blocks_after: 2, craft: Some((field, delta)) });
+                    }
+                }
+            }
+            v
+        },
+        check_core,
+    ));
+    // the same for every Rng type with == and serde: all numeric fields of the image
+    for ty in Ty::ALL {
+        let info = ty.info();
+        if !(info.eq && info.serde) {
+            continue;
+        }
+        subs.push(crate::engine::ESub::boxed(
+            format!("crafted-all-fields/{}", ty.name()),
+            100,
+            move || {
+                let g = adapter::seed_from_u64(ty, 12345);
+                let n = g.json().map(|j| count_numeric_leaves(&serde_json::from_str(&j).unwrap(), "")).unwrap_or(0);
+                (0..n)
+                    .flat_map(|field| {
+                        [1u64, 1 << 31].into_iter().map(move |delta| PairCase {
+                            spec: GenSpec::Det { ty, ctor: Ctor::U64(12345 + field as u64) },
+                            pre: 3,
+                            hist: vec![Op::U64],
+                            mode: PairMode::Crafted { field, delta },
+                            cont: vec![Op::U64, Op::U32, Op::Fill(9), Op::U64],
+                        })
+                    })
+                    .collect()
+            },
+            check_pair,
+        ));
+    }
     subs.push(PSub::boxed(
         "hc128-position",
         t.pick(8000, 800_000),
@@ -389,7 +449,7 @@ pub fn def(ctx: &Ctx) -> PropDef {
     }
     PropDef {
         id: "C10",
-        rule: "cases: (a) clone: 19 types x constructor x pre-advance (every buffer index) x history (incl. jumps) then clone, == where provided, a generated continuation (incl. jumps) on both, == again; (b) near-equal pairs: same history / re-chunked history consuming the same words / one extra call / unrelated history / seed with one bit flipped / serde image with exactly one numeric state field changed and restored through Deserialize; oracle: if a == b then every continuation value is equal and a == b still holds (nothing asserted when a != b), == symmetric, identically driven generators are ==; (c) Hc128Rng: same seed, different read positions inside one 16-word block must be !=; (d) public cores Hc128Core/IsaacCore/Isaac64Core through BlockRngCore::generate incl. serde-crafted one-field differences. Non-trivial = state not freshly seeded and continuation >= 2 ops (pairs: == available); distinct by hash of the case.".into(),
+        rule: "cases: (a) clone: 19 types x constructor x pre-advance (every buffer index) x history (incl. jumps) then clone, == where provided, a generated continuation (incl. jumps) on both, == again; (b) near-equal pairs: same history / re-chunked history consuming the same words / one extra call / unrelated history / seed with one bit flipped / serde image with exactly one numeric state field changed and restored through Deserialize; oracle: if a == b then every continuation value is equal and a == b still holds (nothing asserted when a != b), == symmetric, identically driven generators are ==; (c) Hc128Rng: same seed, different read positions inside one 16-word block must be !=; (d) public cores Hc128Core/IsaacCore/Isaac64Core through BlockRngCore::generate incl. serde-crafted one-field differences; every numeric state field of IsaacCore/Isaac64Core (259 each) and of every Rng type with == and serde is changed once, enumerated. Non-trivial = state not freshly seeded and continuation >= 2 ops (pairs: == available); distinct by hash of the case.".into(),
         explanation: None,
         assumptions: vec!["serde-crafted states avoid the BlockRng index/half_used bookkeeping fields (states no real generator can serialize are outside the property)".into()],
         subs,
